@@ -12,7 +12,7 @@ impl<'a> Tr<'a> {
     }
 
     fn state_vars(&self) -> Vec<String> {
-        self.state.last().cloned().unwrap_or_else(|| vec!["self".to_string()])
+        self.state.last().cloned().unwrap_or_else(|| self.state_base())
     }
 
     /// a statement that updates the state: the `let`s it becomes (the environment may change: deferred initialisation)
@@ -63,7 +63,7 @@ impl<'a> Tr<'a> {
                             if m.method == "get_unchecked_mut" && m.args.len() == 1 && m.turbofish.is_none() {
                                 if let Some(pl) = self.place(&m.receiver, env)? {
                                     if let Ty::Vec(elem) = &pl.ty {
-                                        if pl.base != "self" || !self.self_mut {
+                                        if !self.is_state_var(&pl.base) {
                                             return self.unsupported(sp, "assignment to an element of a Vec that is not a field of `&mut self`:");
                                         }
                                         let (i, it) = self.expr(&m.args[0], env)?;
@@ -122,20 +122,40 @@ impl<'a> Tr<'a> {
             Expr::MethodCall(m) => {
                 let pl = match self.place(&m.receiver, env)? {
                     Some(pl) => pl,
-                    None => return self.unsupported(sp, "method call as a statement (only on a Vec field `self.f`)"),
+                    None => {
+                        // `x.f(..)` for a `&mut` parameter / `self`: a method that changes its receiver
+                        if let Some((b, segs)) = self.as_place(&m.receiver) {
+                            if segs.is_empty() && self.is_state_var(&b) {
+                                self.method_value(m, env)?;
+                                if !self.effect_seen {
+                                    return self.unsupported(sp, "call without effect as a statement:");
+                                }
+                                return Ok(vec![]);
+                            }
+                        }
+                        return self.unsupported(sp, "method call as a statement (only on a Vec field `self.f`)");
+                    }
                 };
                 if m.turbofish.is_some() {
                     return self.unsupported(sp, "turbofish");
                 }
                 let elem = match &pl.ty {
                     Ty::Vec(t) => (**t).clone(),
+                    Ty::Named { .. } => {
+                        // a method that changes its receiver, called for its effect (the value is dropped)
+                        self.method_value(m, env)?;
+                        if !self.effect_seen {
+                            return self.unsupported(sp, "call without effect as a statement:");
+                        }
+                        return Ok(vec![]);
+                    }
                     _ => return self.unsupported(sp, "method call on a field that is not a Vec"),
                 };
-                if pl.base != "self" {
-                    return self.unsupported(sp, "method call as a statement (only on a Vec field `self.f`)");
-                }
-                if !self.self_mut {
+                if pl.base == "self" && !self.self_mut {
                     return self.unsupported(sp, "field update in a method that does not take `&mut self`");
+                }
+                if !self.is_state_var(&pl.base) {
+                    return self.unsupported(sp, "method call as a statement (only on a Vec field `self.f`)");
                 }
                 let name = m.method.to_string();
                 let args: Vec<&Expr> = m.args.iter().collect();
@@ -230,7 +250,7 @@ impl<'a> Tr<'a> {
                 out.push(Chunk::Lines(lines));
             }
             (Mode::Tail, None) => {
-                let pat = "self".to_string();
+                let pat = pat_of(&self.tail_state());
                 let inline = !self.has_panic && matches!(out.last(), Some(Chunk::LetState(p, _)) if *p == pat);
                 if inline {
                     // the new `self` is the value: `let self := X; self` is written `X`
@@ -346,6 +366,7 @@ impl<'a> Tr<'a> {
                             let clash = self.pre.iter().enumerate().any(|(j, p)| match p {
                                 Pre::Let { pat, rhs, .. } => j > k && (text_mentions(rhs, &lean_ident(&name)) || text_mentions(pat, &lean_ident(&name)) || text_mentions(rhs, &v.s)),
                                 Pre::Bind { opt, .. } => j > k && (text_mentions(opt, &lean_ident(&name)) || text_mentions(opt, &v.s)),
+                                Pre::OBind { .. } => j > k,
                             });
                             if !clash {
                                 if let Pre::Bind { name: n, .. } = &mut self.pre[k] {
@@ -395,7 +416,7 @@ impl<'a> Tr<'a> {
                         if !last {
                             return self.unsupported(stmts[i + 1].span(), "statement after `return`");
                         }
-                        if mode != Mode::Tail {
+                        if mode != Mode::Tail || self.loop_ctx.is_some() {
                             return self.unsupported(e.span(), "`return` here");
                         }
                         return self.finish(out, r.expr.as_deref(), &env, mode, e.span());
@@ -410,6 +431,16 @@ impl<'a> Tr<'a> {
                             }
                             return Ok(self.panic_lines(out, &m.mac, e.span()));
                         }
+                    }
+                    if let Expr::ForLoop(fl) = e {
+                        if mode == Mode::Value {
+                            return self.unsupported(e.span(), "loop inside a value block");
+                        }
+                        let own = self.for_loop(fl, &env, mode)?;
+                        if let Some(done) = self.close_stmt(stmts, i + 1, &env, mode, sp, &mut out, own)? {
+                            return Ok(done);
+                        }
+                        continue;
                     }
                     let control = matches!(e, Expr::If(_) | Expr::Match(_));
                     if last && semi.is_none() && self.wants_value(mode) {
@@ -436,9 +467,9 @@ impl<'a> Tr<'a> {
                         let mut assigned = vec![];
                         let mut lets = vec![];
                         assigned_in_expr(e, &mut assigned, &mut lets);
-                        let mut vars: Vec<String> = if self.self_mut { vec!["self".to_string()] } else { vec![] };
+                        let mut vars: Vec<String> = self.state_base();
                         for x in assigned {
-                            if x == "self" {
+                            if x == "self" || vars.contains(&x) {
                                 continue;
                             }
                             if self.lookup(&env, &x).is_some() {
@@ -475,6 +506,7 @@ impl<'a> Tr<'a> {
                         if self.effect_seen {
                             match e {
                                 Expr::Assign(a) => self.check_effect_order(&a.right)?,
+                                Expr::MethodCall(_) => self.check_effect_order(e)?,
                                 _ => return self.unsupported(e.span(), "effect inside this kind of statement:"),
                             }
                         }
@@ -487,6 +519,103 @@ impl<'a> Tr<'a> {
             }
         }
         self.finish(out, None, &env, mode, sp)
+    }
+
+    /// `for x in 0..n { body }` (a general rule): a fold of the body over `0, …, n-1` on the state the body changes —
+    /// `forRange n state (fun x state => body)`, or `forRangeO` (stops at the first panic) when the body can panic
+    fn for_loop(&mut self, fl: &syn::ExprForLoop, env: &Env, mode: Mode) -> Res<Vec<Chunk>> {
+        let sp = fl.span();
+        if !fl.attrs.is_empty() || fl.label.is_some() {
+            return self.unsupported(sp, "loop with a label or an attribute");
+        }
+        let idx = match &*fl.pat {
+            Pat::Wild(_) => None,
+            Pat::Ident(p) if p.by_ref.is_none() && p.mutability.is_none() && p.subpat.is_none() => Some(p.ident.to_string()),
+            _ => return self.unsupported(sp, "loop pattern (only `for x in 0..n` / `for _ in 0..n`)"),
+        };
+        let end = match self.strip(&fl.expr)? {
+            Expr::Range(r) if matches!(r.limits, syn::RangeLimits::HalfOpen(_)) => match (&r.start, &r.end) {
+                (Some(s), Some(e)) if matches!(&**s, Expr::Lit(l) if matches!(&l.lit, Lit::Int(i) if i.base10_digits() == "0")) => &**e,
+                _ => return self.unsupported(sp, "loop range (only `0..n`)"),
+            },
+            _ => return self.unsupported(sp, "loop (only `for x in 0..n`)"),
+        };
+        let (n, nt) = self.expr(end, env)?;
+        if !matches!(nt, Ty::Int(..)) {
+            return self.unsupported(sp, "loop range (only `0..n` for an integer `n`)");
+        }
+        if self.effect_seen {
+            return self.unsupported(sp, "effect in the range of a loop:");
+        }
+        // the state of the loop: the function's state and the outer locals the body assigns
+        let mut assigned = vec![];
+        let mut lets = vec![];
+        assigned_in_stmts(&fl.body.stmts, &mut assigned, &mut lets);
+        let mut vars = self.state_base();
+        for x in assigned {
+            if x == "self" || vars.contains(&x) {
+                continue;
+            }
+            match self.lookup(env, &x) {
+                Some(Var { kind: Kind::Deferred { .. }, .. }) => return self.unsupported(sp, "deferred initialisation inside a loop:"),
+                Some(_) => {
+                    if lets.contains(&x) {
+                        return self.err(sp, format!("outside the supported subset: `{x}` is assigned in the loop and also bound by a `let` / pattern inside it"));
+                    }
+                    vars.push(x);
+                }
+                None => {}
+            }
+        }
+        if vars.is_empty() {
+            return self.unsupported(sp, "loop that can have no effect here:");
+        }
+        let body_panics = {
+            use quote::ToTokens;
+            let mut ids = BTreeSet::new();
+            collect_idents(fl.body.to_token_stream(), &mut ids);
+            tokens_have_panic(fl.body.to_token_stream()) || self.prims.iter().any(|p| p.panics && ids.contains(&p.name)) || self.sigs.iter().any(|s| s.has_panic && ids.contains(&s.name))
+        };
+        if body_panics && mode != Mode::Tail {
+            return self.unsupported(sp, "loop whose body can panic inside a nested statement block:");
+        }
+        if vars.len() > 1 {
+            self.tuple_state = true;
+        }
+        let mut env2 = env.clone();
+        if let Some(x) = &idx {
+            env2.push(var(x.clone(), if matches!(nt, Ty::Int(0, _)) { Ty::usize() } else { nt.clone() }));
+        }
+        // the body is a function from state to state (to `Outcome state`)
+        let saved = (self.loop_ctx.take(), std::mem::replace(&mut self.ret, Ty::Unit), self.has_panic, self.match_depth, std::mem::take(&mut self.state));
+        self.loop_ctx = Some((vars.clone(), body_panics));
+        self.has_panic = body_panics;
+        self.match_depth = 0;
+        let pre_outer = self.take_pre();
+        let body = self.block(&fl.body.stmts, &env2, Mode::Tail, fl.body.span());
+        self.pre = pre_outer;
+        self.loop_ctx = saved.0;
+        self.ret = saved.1;
+        self.has_panic = saved.2;
+        self.match_depth = saved.3;
+        self.state = saved.4;
+        let body = body?;
+        let pat = pat_of(&vars);
+        let x = idx.map(|x| lean_ident(&x)).unwrap_or_else(|| "_".to_string());
+        let f = if body_panics { "forRangeO" } else { "forRange" };
+        let mut call = vec![format!("{f} {} {pat} (fun {x} {pat} =>  -- L{}: `for {} in {}`", n.arg(), line_of(sp), self.src_text(fl.pat.span()), self.src_text(fl.expr.span()))];
+        call.extend(indent(indent(body)));
+        let last = call.len() - 1;
+        call[last] = match call[last].find("  -- ") {
+            Some(c) => format!("{}){}", &call[last][..c], &call[last][c..]),
+            None => format!("{})", call[last]),
+        };
+        if body_panics {
+            self.push_pre(Pre::OBind { pat, call, line: line_of(sp), why: "the loop".to_string() }, sp)?;
+            Ok(vec![])
+        } else {
+            Ok(vec![Chunk::LetState(pat, call)])
+        }
     }
 
     fn panic_lines(&mut self, mut out: Vec<Chunk>, m: &syn::Macro, sp: Span) -> Vec<String> {
@@ -576,9 +705,7 @@ impl<'a> Tr<'a> {
                         _ => return self.unsupported(l.span(), "`if let Some(..)` on a value that is not an Option"),
                     };
                     let borrow = self.last_borrow.take().filter(|b| b.value == s.s);
-                    if self.effect_seen {
-                        return self.unsupported(l.span(), "effect in a condition:");
-                    }
+                    self.check_effect_order(&l.expr)?;
                     let pre = self.take_pre();
                     let nb = Self::binds_in(&pre);
                     if nb > 0 && mode != Mode::Tail {
@@ -614,9 +741,7 @@ impl<'a> Tr<'a> {
                     return Ok(self.wrap(pre, lines));
                 }
                 let c = self.cond(&i.cond, env)?;
-                if self.effect_seen {
-                    return self.unsupported(i.cond.span(), "effect in a condition:");
-                }
+                self.check_effect_order(&i.cond)?;
                 let pre = self.take_pre();
                 let nb = Self::binds_in(&pre);
                 if nb > 0 && mode != Mode::Tail {
@@ -669,9 +794,7 @@ impl<'a> Tr<'a> {
         }
         self.begin_stmt();
         let (s, st) = self.expr(&m.expr, env)?;
-        if self.effect_seen {
-            return self.unsupported(m.expr.span(), "effect in a condition:");
-        }
+        self.check_effect_order(&m.expr)?;
         let pre = self.take_pre();
         let nb = Self::binds_in(&pre);
         if nb > 0 && mode != Mode::Tail {
@@ -833,7 +956,9 @@ impl<'a> Tr<'a> {
         self.match_depth = 0;
         self.pre.clear();
         self.no_hoist = 0;
-        self.state = vec![vec!["self".to_string()]];
+        self.state = vec![];
+        self.mut_params.clear();
+        self.loop_ctx = None;
         self.deferred_tys.clear();
         self.idents.clear();
         {
@@ -852,6 +977,7 @@ impl<'a> Tr<'a> {
         let mut env: Env = vec![];
         let mut binders: Vec<String> = vec![];
         let mut params: Vec<Ty> = vec![];
+        let mut mut_param_tys: Vec<String> = vec![];
         for a in &sig.inputs {
             match a {
                 FnArg::Receiver(r) => {
@@ -864,11 +990,30 @@ impl<'a> Tr<'a> {
                     env.push(var("self", Ty::Named { rust: ty_name.to_string(), lean: self_ty.clone(), tyvar: false }));
                 }
                 FnArg::Typed(pt) => {
-                    let name = match &*pt.pat {
-                        Pat::Ident(p) if p.by_ref.is_none() && p.mutability.is_none() && p.subpat.is_none() => p.ident.to_string(),
+                    let (name, mut_binding) = match &*pt.pat {
+                        Pat::Ident(p) if p.by_ref.is_none() && p.subpat.is_none() => (p.ident.to_string(), p.mutability.is_some()),
                         _ => return self.unsupported(pt.span(), "argument pattern (only `x: T`, no `mut`)"),
                     };
+                    // `x: &mut S` for a struct `S`: state, threaded through like `self`
+                    if let Type::Reference(r) = &*pt.ty {
+                        if r.mutability.is_some() {
+                            let t = self.ty(&r.elem)?;
+                            if !matches!(t, Ty::Named { tyvar: false, .. }) || mut_binding {
+                                return self.unsupported(pt.span(), "`&mut` parameter (only of a struct type)");
+                            }
+                            binders.push(format!("({} : {})", lean_ident(&name), t.lean()));
+                            params.push(t.clone());
+                            mut_param_tys.push(t.lean());
+                            note!(self, refs, format!("`{}: {}` (fn {}): state, threaded through like `self` of a `&mut self` method (the function returns its new value)", name, self.src_text(pt.ty.span()), self.fn_name));
+                            self.mut_params.push(name.clone());
+                            env.push(var(name, t));
+                            continue;
+                        }
+                    }
                     let t = self.ty(&pt.ty)?;
+                    if mut_binding && !matches!(t, Ty::Fn(..)) {
+                        return self.unsupported(pt.span(), "argument pattern (only `x: T`, no `mut`)");
+                    }
                     if matches!(&*pt.ty, Type::Reference(_)) {
                         note!(self, refs, format!("`{}: {}` (fn {}): a shared reference is the value it points to", name, self.src_text(pt.ty.span()), self.fn_name));
                     }
@@ -885,19 +1030,29 @@ impl<'a> Tr<'a> {
             ReturnType::Default => Ty::Unit,
             ReturnType::Type(_, t) => self.ty(t)?,
         };
-        if !self.self_mut && self.ret == Ty::Unit {
+        if self.state_base().is_empty() && self.ret == Ty::Unit {
             return self.unsupported(sp, if self.has_self { "`&self` method without a result" } else { "associated function without a result" });
         }
         {
             use quote::ToTokens;
-            self.has_panic = tokens_have_panic(f.block.to_token_stream());
+            let mut ids = BTreeSet::new();
+            collect_idents(f.block.to_token_stream(), &mut ids);
+            // `panic!` in the body, or a call of something that can panic (by name)
+            self.has_panic = tokens_have_panic(f.block.to_token_stream())
+                || self.prims.iter().any(|p| p.panics && ids.contains(&p.name))
+                || self.sigs.iter().any(|s| s.has_panic && ids.contains(&s.name));
         }
         let body = self.block(&f.block.stmts, &env, Mode::Tail, f.block.span())?;
-        let ret = match (self.self_mut, &self.ret) {
-            (true, Ty::Unit) => self_ty.clone(),
-            (true, t) => format!("{} × {}", self_ty, paren_ty(&t.lean())),
-            (false, t) => t.lean(),
-        };
+        let mut comps: Vec<String> = vec![];
+        if self.self_mut {
+            comps.push(self_ty.clone());
+        }
+        comps.extend(mut_param_tys.iter().cloned());
+        if self.ret != Ty::Unit {
+            comps.push(self.ret.lean());
+        }
+        let ret = if comps.len() == 1 { comps[0].clone() } else { comps.iter().map(|c| paren_ty(c)).collect::<Vec<_>>().join(" × ") };
+        let ret = if comps.len() > 1 && self.self_mut && mut_param_tys.is_empty() { format!("{} × {}", self_ty, paren_ty(&self.ret.lean())) } else { ret };
         let ret = if self.has_panic { format!("Outcome ({ret})") } else { ret };
         let mut inst: Vec<String> = self.deceq.iter().map(|v| format!("[DecidableEq {v}]")).collect();
         inst.extend(self.inh.iter().map(|v| format!("[Inhabited {v}]")));
@@ -910,6 +1065,7 @@ impl<'a> Tr<'a> {
         head.push_str(&format!(" : {ret} :="));
         let (l0, l1) = (line_of(f.span()), f.span().end().line);
         let what = match (self.has_self, self.self_mut, &self.ret) {
+            _ if !self.mut_params.is_empty() => "returns the new state (`self` of a `&mut self` method, the `&mut` parameters) and the result",
             (false, _, _) => "no receiver",
             (_, true, Ty::Unit) => "returns the new `self`",
             (_, true, _) => "returns `(new self, result)`",
@@ -926,6 +1082,7 @@ impl<'a> Tr<'a> {
             params,
             ret: self.ret.clone(),
             has_panic: self.has_panic,
+            mut_params: self.mut_params.len(),
             lean: lean_name,
             deceq: self.deceq.clone(),
             inh: self.inh.clone(),
